@@ -168,7 +168,9 @@ type Stmt struct {
 	BaseID      int // -1: not a sibling
 	ChangedSite int
 	Over        map[int]Lit // literal overrides by value-site index (how a sibling differs from its base)
-	variants    []string
+	// Rows is set for row-count relatives of INSERT ... VALUES statements (rows.go); nil for pool statements
+	Rows     *RowRel
+	variants []string
 }
 
 // Mask selects the sites a pattern generalises. For list sites the value is the number of leading elements
